@@ -90,12 +90,26 @@ def build_posterior(case):
                       [[1.5, 2.5], [1.1, 2.2]][:n_obs]])
         pop = popbuild.build(case['fspec'], None)
         nt = rp.n_top(case['fspec'], case['n_sim'])
-        return chi.PopulationFilterLogPosterior(
+        fpost = chi.PopulationFilterLogPosterior(
             chi.GaussianFilter(y), [0.5, 1.5],
             ToyModel(len(rp.special(case['fspec'])), n_obs), pop,
             uniform_prior(nt + (0 if case['sigma_fixed'] else n_obs)),
             sigma=[0.2, 0.3][:n_obs] if case['sigma_fixed'] else None,
-            n_samples=case['n_sim']), None
+            n_samples=case['n_sim'])
+        # the population model object stays the caller's: what is done to it (and
+        # to its sub-models) afterwards does not reach the posterior
+        for change in (
+                lambda: pop.set_n_ids(case['n_sim'] + 2),
+                lambda: pop.fix_parameters({pop.get_parameter_names()[0]: 0.77}),
+                lambda: pop.set_dim_names(['renamed dim %d' % i
+                                           for i in range(pop.n_dim())]),
+                lambda: [sub.set_n_ids(case['n_sim'] + 3)
+                         for sub in pop.get_population_models()]):
+            try:
+                change()
+            except Exception:
+                pass
+        return fpost, None
     if case['kind'] == 'individual' and case.get('n_out', 1) > 1:
         # several outputs with their own error parameters
         k_ = case['n_out']
@@ -457,6 +471,27 @@ def _readback(case, post, hcase, ds, viol, lab, n_runs, n_draws):
                          'observed': repr(e)[:200],
                          'behaviour': 'pointwise_raise:' + type(e).__name__})
             return
+        # the columns are found by name: the same variables stored in another
+        # order (a hand-assembled or re-ordered dataset) give the same result
+        for how, order in (('reversed', list(ds.data_vars)[::-1]),
+                           ('rotated', list(ds.data_vars)[1:] +
+                            list(ds.data_vars)[:1])):
+            try:
+                pw2 = chi.compute_pointwise_loglikelihood(ll, ds[order])
+                same = pw2.shape == pw.shape and tol.allclose(
+                    np.asarray(pw2.values, dtype=float),
+                    np.asarray(pw.values, dtype=float))
+            except Exception as e:
+                same, pw2 = False, repr(e)[:200]
+            if not same:
+                viol.append({'sub': 'pointwise_order', 'message': 'pointwise '
+                             'log-likelihood depends on the order in which the '
+                             'dataset stores its variables (%s)' % how,
+                             'expected': np.asarray(pw.values, dtype=float),
+                             'observed': pw2 if isinstance(pw2, str) else
+                             np.asarray(pw2.values, dtype=float),
+                             'behaviour': 'pointwise_cols'})
+                return
         for c in range(n_runs):
             for d in range(n_draws):
                 x = np.array([10000.0 * c + 100.0 * d + p
@@ -855,3 +890,4 @@ META['level_text'] += (
     'riors over every composition of 2-3 dimensions with an independent per-sub-mod'
     'el / per-individual sampling reference, more than nine individuals, two observ'
     'ables, a search-space transformation.')
+META['level_text'] += (' Wave 9: datasets with re-ordered variables fed to the pointwise log-likelihood, filter posteriors whose population model is re-configured afterwards.')
